@@ -6,7 +6,8 @@ import json, os, sys, glob
 sys.path.insert(0, os.path.join(os.path.dirname(os.path.dirname(os.path.abspath(__file__))), "tools"))
 import frrparse as fp
 
-CLOSURE = ["Model/FrrAst.v", "Model/FrrRender.v", "Model/FrrSem.v", "Proofs/FrrSortP.v", "Proofs/FrrP.v", "Proofs/FrrListsP.v"]
+CLOSURE = ["Model/FrrAst.v", "Model/FrrRender.v", "Model/FrrSem.v", "Model/FrrSpec.v", "Proofs/FrrSortP.v", "Proofs/FrrP.v", "Proofs/FrrListsP.v",
+           "Proofs/FrrShapeP.v", "Proofs/FrrSemP.v", "Proofs/FrrOutP.v", "Proofs/FrrExactP.v", "Proofs/FrrWfP.v", "Proofs/FrrAdvPermP.v"]
 COQ_FILES = ["Corr/Run_Frr.v"]
 PKG = "internal/bgp/frr"
 EXTRA_ROUTES = ["203.0.113.0/24", "2001:db8:ffff::/48"]
@@ -197,6 +198,9 @@ def run(ctx):
             mism = ctx.coq_cases("Run_Frr", "fcase", terms, shard=40, header="Open Scope string_scope.")
             byid = {c["id"]: c for c in cases}
             seen = set()
+            outside = [m for m in mism if m % 10 == 9]
+            state["outside_wf"] = state.get("outside_wf", 0) + len(outside)
+            mism = [m for m in mism if m % 10 != 9]
             for m in mism:
                 cid, k = m // 10, m % 10
                 if k in seen:
@@ -225,6 +229,7 @@ def run(ctx):
                     if any(s["advs"] for s in c["in"]["sessions"])})
     ctx.cov["correspondence"] = {"cases": len(cases), "parsed_texts": state["parsed"], "mismatches": len(mism),
                                  "oracle_evaluations(neighbor x route x semantic parameters)": state["evals"],
+                                 "cases_outside_wf_sessions_or_route_ok(premises of C14_frr_out_exact, decided in Coq)": state.get("outside_wf", 0),
                                  "golden_files_parsed": gold_ok, "golden_files_rejected(expected: invalid/extras)": gold_bad,
                                  "generator_counters": st}
     ctx.trusted += [
